@@ -216,3 +216,103 @@ def sess_effect(e, sess):
     if e[0] == 'SESSION_NEW' and e[1] == 'op':
         return 'fresh'
     return sess
+
+
+# ------------------------------------------------------------------------------------------------ effect summaries
+
+MUTATING = {'H_WRITE', 'H_TRUNCATE', 'H_FLUSH', 'FSYNC', 'FCNTL', 'RENAME', 'REPLACE', 'LINK', 'UNLINK', 'RMTREE', 'RMDIR', 'MKDIR',
+            'DB_INSERT', 'DB_UPDATE', 'DB_DELETE', 'DB_COMMIT', 'DB_VACUUM', 'MOVE', 'COPY', 'WRITE_PATH', 'TOUCH',
+            'TRUNCATE_PATH', 'FS_OTHER'}
+
+
+class Summaries:
+    """Per-function effect summaries: the effects of the function's own call sites (kinds evaluated in a stand-alone
+    frame) and, transitively, of its resolved internal callees."""
+
+    def __init__(self, ctx):
+        self.ctx = ctx
+        self._own = {}
+        self._trans = {}
+
+    def calls(self, fn):
+        """[(call ast, Callee, effects)] for the function's own call sites (with-exit closes not included)."""
+        if fn.qualname in self._own:
+            return self._own[fn.qualname]
+        from ..cfg import Node
+        K, E = self.ctx.kinds, self.ctx.effects
+        out = []
+        self._own[fn.qualname] = out
+        if isinstance(fn.node, ast.Lambda):
+            body = [fn.node.body]
+            nodes = list(ast.walk(fn.node.body))
+        else:
+            nodes = list(walk_local(fn.node))
+        fr = K.top_frame(fn)
+        for n in nodes:
+            if isinstance(n, ast.Call):
+                cal = K.resolve_call(n, fr)
+                nd = Node(-1, 'call', n, fr)
+                nd.callee = cal
+                out.append((n, cal, E.of(nd)))
+            elif isinstance(n, (ast.Assign, ast.AnnAssign)):
+                nd = Node(-1, 'stmt', n, fr)
+                effs = E.of(nd)
+                if effs:
+                    out.append((n, None, effs))
+        return out
+
+    def trans(self, fn, depth=4, _stack=()):
+        """Set of (effect name, frozenset(areas of first operand)) reachable from fn."""
+        key = (fn.qualname, depth)
+        if key in self._trans:
+            return self._trans[key]
+        K = self.ctx.kinds
+        out = set()
+        if fn.qualname in _stack:
+            return out
+        for n, cal, effs in self.calls(fn):
+            for e in effs:
+                ar = frozenset()
+                if len(e) > 1 and isinstance(e[1], tuple):
+                    pk = e[1][1] if e[1] and e[1][0] in ('handle', 'fd') else e[1]
+                    if isinstance(pk, tuple):
+                        ar = frozenset(areas(K, pk))
+                out.add((e[0], ar))
+            if cal is not None and depth > 0:
+                tgt = None
+                if cal.kind == 'internal':
+                    tgt = cal.target
+                elif cal.kind == 'class':
+                    tgt = self.ctx.prog.find_method(cal.target, '__init__')
+                if tgt is not None:
+                    out |= self.trans(tgt, depth - 1, _stack + (fn.qualname,))
+        # lambdas / nested defs defined here are assumed callable from here
+        for sub in fn.nested.values():
+            out |= self.trans(sub, depth - 1, _stack + (fn.qualname,)) if depth > 0 else set()
+        self._trans[key] = out
+        return out
+
+    def effects_of_stmts(self, stmts, fn, depth=3):
+        """Transitive effect names of a list of statements inside fn."""
+        K = self.ctx.kinds
+        ids = set()
+        for st in stmts:
+            for n in ast.walk(st):
+                ids.add(id(n))
+        out = set()
+        for n, cal, effs in self.calls(fn):
+            if id(n) not in ids:
+                continue
+            for e in effs:
+                ar = frozenset()
+                if len(e) > 1 and isinstance(e[1], tuple):
+                    pk = e[1][1] if e[1] and e[1][0] in ('handle', 'fd') else e[1]
+                    if isinstance(pk, tuple):
+                        ar = frozenset(areas(K, pk))
+                out.add((e[0], ar))
+            if cal is not None:
+                tgt = cal.target if cal.kind == 'internal' else (self.ctx.prog.find_method(cal.target, '__init__') if cal.kind == 'class' else None)
+                if tgt is not None:
+                    out |= self.trans(tgt, depth)
+        # `with open(...)`: closing a handle is part of the statement
+        return out
